@@ -412,6 +412,8 @@ func main() {
 			stdVar = n
 		}
 	}
+	// tie 1b runs first: shapeOf below alpha-normalises parameter names in place
+	algoSrc, algoSum := translateAlgorithms(fns, reservedVar, stdVar)
 	if cl := globalLits[stdVar]; cl != nil {
 		for _, e := range cl.Elts {
 			if p, ok := e.(*ast.KeyValueExpr); ok {
@@ -780,23 +782,45 @@ func main() {
 	{
 		var b strings.Builder
 		b.WriteString(hdr + "import JenVerif.Str\nnamespace Gen\n\ndef fingerprints : List (Str × Str) := [\n")
-		modelled := map[string]bool{"register": true, "guessAlias": true, "isValidAlias": true, "isDotImport": true, "isLocal": true, "prefixed": true,
-			"renderItems": true, "render": true, "isNull": true, "isNullItems": true, "Render": true, "renderImports": true, "Save": true,
-			"RenderWithFile": true, "Clone": true, "previous": true, "GoString": true, "Anon": true, "ImportName": true, "ImportNames": true, "ImportAlias": true}
+		// every function and method of package jen that is not generated code, every type
+		// declaration, and generated.go as a whole: a changed entry makes the check spend the
+		// escalated correspondence budget (bin/check.py); it is never by itself a failure
 		first := true
-		for _, f := range fns {
-			if !modelled[f.name] {
-				continue
-			}
-			h := sha256.Sum256([]byte(strings.Join(strings.Fields(nodeStr(f.decl)), " ")))
+		emit := func(k, v string) {
 			if !first {
 				b.WriteString(",\n")
 			}
 			first = false
-			fmt.Fprintf(&b, "  (%s, %s)", leanStr(f.recv+"."+f.name), leanStr(fmt.Sprintf("%x", h[:8])))
+			fmt.Fprintf(&b, "  (%s, %s)", leanStr(k), leanStr(v))
 		}
+		genHash := sha256.New()
+		for _, f := range fns {
+			txt := strings.Join(strings.Fields(nodeStr(f.decl)), " ")
+			if f.file == "generated.go" {
+				genHash.Write([]byte(txt))
+				continue
+			}
+			h := sha256.Sum256([]byte(txt))
+			emit(f.recv+"."+f.name, fmt.Sprintf("%x", h[:8]))
+		}
+		emit("<generated.go>", fmt.Sprintf("%x", genHash.Sum(nil)[:8]))
+		typeHash := sha256.New()
+		for _, fname := range fileNames {
+			for _, decl := range pkg.Files[fname].Decls {
+				if gd, ok := decl.(*ast.GenDecl); ok && (gd.Tok == token.TYPE || gd.Tok == token.VAR || gd.Tok == token.CONST) && filepath.Base(fname) != "hints.go" {
+					typeHash.Write([]byte(strings.Join(strings.Fields(nodeStr(gd)), " ")))
+				}
+			}
+		}
+		emit("<types, vars, consts>", fmt.Sprintf("%x", typeHash.Sum(nil)[:8]))
 		b.WriteString("\n]\n\nend Gen\n")
 		write("Fingerprints.lean", b.String())
+	}
+	// Tie 1b: the import-registry algorithms, translated (algo.go)
+	algoSummary := ""
+	{
+		algoSummary = algoSum
+		write("SrcRegistry.lean", algoSrc)
 	}
 	// IsPrint ranges (from the installed toolchain's strconv, not from jennifer)
 	{
@@ -870,6 +894,6 @@ func main() {
 			os.WriteFile(p, []byte(b.String()), 0o644)
 		}
 	}
-	fmt.Printf("translator: %d constructs, %d tokens, %d reserved, %d stdHints, %d globals, %d global writes, %d functions\n",
-		len(constructs), len(tokens), len(reserved), len(stdHints), len(globals), len(writes), len(fns))
+	fmt.Printf("translator: %d constructs, %d tokens, %d reserved, %d stdHints, %d globals, %d global writes, %d functions; %s\n",
+		len(constructs), len(tokens), len(reserved), len(stdHints), len(globals), len(writes), len(fns), algoSummary)
 }
